@@ -43,65 +43,16 @@ theorem walkList_append (defs : List StyleDef) (a b : List Node) (w : Walk) :
   | nil => simp [walkList]
   | cons n rest ih => simp only [List.cons_append, walkList]; rw [ih]
 
-/-! ### the decoder gives up: `scanList` is the walk over `residualList` -/
-
-/-- when the decoder `ctx` gives up below a child, the walk goes on over exactly the nodes
-`residualNode` names; otherwise nothing happens -/
-theorem scan_residual_node (defs : List StyleDef) (n : Node) :
-    ∀ (ctx : Ctx) (w : Walk), scanNode defs ctx n w = (residualNode ctx n).map fun r => walkList defs r w := by
-  induction n using Node.rec (motive_2 := fun l => ∀ (ctx : Ctx) (w : Walk),
-      scanList defs ctx l w = (residualList ctx l).map fun r => walkList defs r w) with
-  | elem tag attrs kids ih =>
-    intro ctx w
-    simp only [scanNode, residualNode]
-    cases descend ctx (localName tag) with
-    | skip => rfl
-    | fail => rfl
-    | into c => exact ih c w
-  | text s => intro ctx w; rfl
-  | nil => rfl
-  | cons n rest ihn ihr =>
-    rename_i ctx w
-    simp only [scanList, residualList]
-    rw [ihn ctx w]
-    cases residualNode ctx n with
-    | none => exact ihr ctx w
-    | some r =>
-      cases hi : ctx.isInline
-      · simp
-      · simp [walkList_append]
-
-theorem scan_residual (defs : List StyleDef) (ctx : Ctx) (l : List Node) (w : Walk) :
-    scanList defs ctx l w = (residualList ctx l).map fun r => walkList defs r w := by
-  induction l generalizing w with
-  | nil => rfl
-  | cons n rest ih =>
-    simp only [scanList, residualList]
-    rw [scan_residual_node defs n ctx w]
-    cases residualNode ctx n with
-    | none => exact ih w
-    | some r =>
-      cases hi : ctx.isInline
-      · simp
-      · simp [walkList_append]
-
-theorem scan_none (defs : List StyleDef) (ctx : Ctx) (l : List Node) (w : Walk)
-    (h : (residualList ctx l).isNone = true) : scanList defs ctx l w = none := by
-  rw [scan_residual]
-  cases hr : residualList ctx l with
-  | none => rfl
-  | some r => rw [hr] at h; cases h
-
-/-- once `Token` has answered `io.EOF` nothing is read any more -/
-theorem walk_done_node (defs : List StyleDef) (n : Node) (w : Walk) (h : w.done = true) : walkNode defs n w = w := by
+/-- once `parseBodyElements` has returned the depth error nothing is read any more -/
+theorem walk_failed_node (defs : List StyleDef) (n : Node) (w : Walk) (h : w.failed = true) : walkNode defs n w = w := by
   cases n with
   | text s => rfl
   | elem tag attrs kids => simp [walkNode, h]
 
-theorem walk_done_list (defs : List StyleDef) (l : List Node) (w : Walk) (h : w.done = true) : walkList defs l w = w := by
+theorem walk_failed_list (defs : List StyleDef) (l : List Node) (w : Walk) (h : w.failed = true) : walkList defs l w = w := by
   induction l with
   | nil => rfl
-  | cons n rest ih => simp only [walkList]; rw [walk_done_node defs n w h]; exact ih
+  | cons n rest ih => simp only [walkList]; rw [walk_failed_node defs n w h]; exact ih
 
 mutual
 /-- every `text:p`, `text:h`, `text:list`, `table:table` the body walk hands to
@@ -110,10 +61,10 @@ deeper than `maxInlineDepth` (a decidable property of the tree) -/
 def decodesNode : Node → Bool
   | .text _ => true
   | .elem tag _ kids =>
-    if localName tag == sP then (residualList (.inline 0) kids).isNone
-    else if localName tag == sH then (residualList (.inline 0) kids).isNone
-    else if localName tag == sList then (residualList .list kids).isNone
-    else if localName tag == sTable then (residualList .table kids).isNone
+    if localName tag == sP then decodes (.inline 0) kids
+    else if localName tag == sH then decodes (.inline 0) kids
+    else if localName tag == sList then decodes .list kids
+    else if localName tag == sTable then decodes .table kids
     else decodesList kids
 def decodesList : List Node → Bool
   | [] => true
@@ -122,11 +73,11 @@ end
 
 /-- inside the text body the streaming walk appends exactly `elemsOfNode`, in source order -
 for a subtree whose body elements are all decoded to their end (`decodesNode`; beyond
-`maxInlineDepth` see `walk_gives_up`) -/
+`maxInlineDepth` see `walk_refuses_node`) -/
 theorem walk_inside_node (defs : List StyleDef) (n : Node) :
-    ∀ w : Walk, w.inBody = true → w.done = false → noTextNode n = true → decodesNode n = true →
+    ∀ w : Walk, w.inBody = true → w.failed = false → noTextNode n = true → decodesNode n = true →
       walkNode defs n w = { w with acc := w.acc ++ elemsOfNode defs n } := by
-  induction n using Node.rec (motive_2 := fun l => ∀ w : Walk, w.inBody = true → w.done = false →
+  induction n using Node.rec (motive_2 := fun l => ∀ w : Walk, w.inBody = true → w.failed = false →
       noTextList l = true → decodesList l = true →
       walkList defs l w = { w with acc := w.acc ++ elemsOfList defs l }) with
   | elem tag attrs kids ih =>
@@ -141,27 +92,27 @@ theorem walk_inside_node (defs : List StyleDef) (n : Node) :
     split
     · rename_i hp
       simp only [hp, if_true] at hdec
-      rw [scan_none defs _ kids w hdec]
+      rw [if_pos hdec]
     · rename_i hp
-      simp only [hp] at hdec
+      simp only [hp, Bool.false_eq_true, if_false] at hdec
       split
       · rename_i hh
         simp only [hh, if_true] at hdec
-        rw [scan_none defs _ kids w hdec]
+        rw [if_pos hdec]
       · rename_i hh
-        simp only [hh] at hdec
+        simp only [hh, Bool.false_eq_true, if_false] at hdec
         split
         · rename_i hl
           simp only [hl, if_true] at hdec
-          rw [scan_none defs _ kids w hdec]
+          rw [if_pos hdec]
         · rename_i hl
-          simp only [hl] at hdec
+          simp only [hl, Bool.false_eq_true, if_false] at hdec
           split
           · rename_i ht
             simp only [ht, if_true] at hdec
-            rw [scan_none defs _ kids w hdec]
+            rw [if_pos hdec]
           · rename_i ht
-            simp only [ht] at hdec
+            simp only [ht, Bool.false_eq_true, if_false] at hdec
             rw [ih w hb hd hn.2 hdec, hb, hd]
   | text s => intro w _ _ _ _; simp [walkNode, elemsOfNode]
   | nil => simp [walkList, elemsOfList]
@@ -174,7 +125,7 @@ theorem walk_inside_node (defs : List StyleDef) (n : Node) :
     simp [List.append_assoc]
 
 theorem walk_inside_list (defs : List StyleDef) (l : List Node) :
-    ∀ w : Walk, w.inBody = true → w.done = false → noTextList l = true → decodesList l = true →
+    ∀ w : Walk, w.inBody = true → w.failed = false → noTextList l = true → decodesList l = true →
       walkList defs l w = { w with acc := w.acc ++ elemsOfList defs l } := by
   induction l with
   | nil => intro w _ _ _ _; simp [walkList, elemsOfList]
@@ -185,6 +136,80 @@ theorem walk_inside_list (defs : List StyleDef) (l : List Node) :
     simp only [walkList, elemsOfList]
     rw [walk_inside_node defs n w hb hd hn.1 hdec.1, ih { w with acc := w.acc ++ elemsOfNode defs n } hb hd hn.2 hdec.2]
     simp [List.append_assoc]
+
+/-- inside the text body a subtree in which some body element is NOT decoded to its end makes
+`parseBodyElements` return the depth error -/
+theorem walk_refuses_node (defs : List StyleDef) (n : Node) :
+    ∀ w : Walk, w.inBody = true → w.failed = false → noTextNode n = true → decodesNode n = false →
+      (walkNode defs n w).failed = true := by
+  induction n using Node.rec (motive_2 := fun l => ∀ w : Walk, w.inBody = true → w.failed = false →
+      noTextList l = true → decodesList l = false → (walkList defs l w).failed = true) with
+  | elem tag attrs kids ih =>
+    intro w hb hd hn hdec
+    simp only [noTextNode, Bool.and_eq_true, bne_iff_ne, ne_eq] at hn
+    have hne : (tag == sOfficeText) = false := by
+      cases h : tag == sOfficeText
+      · rfl
+      · exact absurd (by simpa using h) hn.1
+    simp only [walkNode, hne, hb, hd, Bool.false_eq_true, if_false, Bool.not_true]
+    simp only [decodesNode] at hdec
+    split
+    · rename_i hp
+      simp only [hp, if_true] at hdec
+      simp [hdec]
+    · rename_i hp
+      simp only [hp, Bool.false_eq_true, if_false] at hdec
+      split
+      · rename_i hh
+        simp only [hh, if_true] at hdec
+        simp [hdec]
+      · rename_i hh
+        simp only [hh, Bool.false_eq_true, if_false] at hdec
+        split
+        · rename_i hl
+          simp only [hl, if_true] at hdec
+          simp [hdec]
+        · rename_i hl
+          simp only [hl, Bool.false_eq_true, if_false] at hdec
+          split
+          · rename_i ht
+            simp only [ht, if_true] at hdec
+            simp [hdec]
+          · rename_i ht
+            simp only [ht, Bool.false_eq_true, if_false] at hdec
+            exact ih w hb hd hn.2 hdec
+  | text s => intro w _ _ _ h; simp [decodesNode] at h
+  | nil => rename_i w _ _ _ h; simp [decodesList] at h
+  | cons n rest ihn ihr =>
+    rename_i w hb hd hn hdec
+    simp only [noTextList, Bool.and_eq_true] at hn
+    simp only [walkList]
+    cases hdn : decodesNode n with
+    | false =>
+      have hf := ihn w hb hd hn.1 hdn
+      rw [walk_failed_list defs rest _ hf]; exact hf
+    | true =>
+      simp only [decodesList, hdn, Bool.true_and] at hdec
+      rw [walk_inside_node defs n w hb hd hn.1 hdn]
+      exact ihr _ hb hd hn.2 hdec
+
+theorem walk_refuses_list (defs : List StyleDef) (l : List Node) :
+    ∀ w : Walk, w.inBody = true → w.failed = false → noTextList l = true → decodesList l = false →
+      (walkList defs l w).failed = true := by
+  induction l with
+  | nil => intro w _ _ _ h; simp [decodesList] at h
+  | cons n rest ih =>
+    intro w hb hd hn hdec
+    simp only [noTextList, Bool.and_eq_true] at hn
+    simp only [walkList]
+    cases hdn : decodesNode n with
+    | false =>
+      have hf := walk_refuses_node defs n w hb hd hn.1 hdn
+      rw [walk_failed_list defs rest _ hf]; exact hf
+    | true =>
+      simp only [decodesList, hdn, Bool.true_and] at hdec
+      rw [walk_inside_node defs n w hb hd hn.1 hdn]
+      exact ih _ hb hd hn.2 hdec
 
 /-- outside the text body nothing is recorded -/
 theorem walk_outside_node (defs : List StyleDef) (n : Node) :
@@ -219,6 +244,65 @@ theorem walk_outside_list (defs : List StyleDef) (l : List Node) :
     simp only [noTextList, Bool.and_eq_true] at hn
     simp only [walkList]
     rw [walk_outside_node defs n w hb hn.1, ih w hb hn.2]
+
+/-! ### the walk before the repair: `scanListOld` is the old walk over `residualList` -/
+
+theorem walkListOld_append (defs : List StyleDef) (a b : List Node) (w : WalkOld) :
+    walkListOld defs (a ++ b) w = walkListOld defs b (walkListOld defs a w) := by
+  induction a generalizing w with
+  | nil => simp [walkListOld]
+  | cons n rest ih => simp only [List.cons_append, walkListOld]; rw [ih]
+
+/-- when the decoder `ctx` gave up below a child, the old walk went on over exactly the nodes
+`residualNode` names; otherwise nothing happened -/
+theorem scanOld_residual_node (defs : List StyleDef) (n : Node) :
+    ∀ (ctx : Ctx) (w : WalkOld), scanNodeOld defs ctx n w = (residualNode ctx n).map fun r => walkListOld defs r w := by
+  induction n using Node.rec (motive_2 := fun l => ∀ (ctx : Ctx) (w : WalkOld),
+      scanListOld defs ctx l w = (residualList ctx l).map fun r => walkListOld defs r w) with
+  | elem tag attrs kids ih =>
+    intro ctx w
+    simp only [scanNodeOld, residualNode]
+    cases descend ctx (localName tag) with
+    | skip => rfl
+    | fail => rfl
+    | into c => exact ih c w
+  | text s => intro ctx w; rfl
+  | nil => rfl
+  | cons n rest ihn ihr =>
+    rename_i ctx w
+    simp only [scanListOld, residualList]
+    rw [ihn ctx w]
+    cases residualNode ctx n with
+    | none => exact ihr ctx w
+    | some r =>
+      cases hi : ctx.isInline
+      · simp
+      · simp [walkListOld_append]
+
+theorem scanOld_residual (defs : List StyleDef) (ctx : Ctx) (l : List Node) (w : WalkOld) :
+    scanListOld defs ctx l w = (residualList ctx l).map fun r => walkListOld defs r w := by
+  induction l generalizing w with
+  | nil => rfl
+  | cons n rest ih =>
+    simp only [scanListOld, residualList]
+    rw [scanOld_residual_node defs n ctx w]
+    cases residualNode ctx n with
+    | none => exact ih w
+    | some r =>
+      cases hi : ctx.isInline
+      · simp
+      · simp [walkListOld_append]
+
+/-- once `Token` had answered `io.EOF` nothing was read any more -/
+theorem walkOld_done_node (defs : List StyleDef) (n : Node) (w : WalkOld) (h : w.done = true) : walkNodeOld defs n w = w := by
+  cases n with
+  | text s => rfl
+  | elem tag attrs kids => simp [walkNodeOld, h]
+
+theorem walkOld_done_list (defs : List StyleDef) (l : List Node) (w : WalkOld) (h : w.done = true) : walkListOld defs l w = w := by
+  induction l with
+  | nil => rfl
+  | cons n rest ih => simp only [walkListOld]; rw [walkOld_done_node defs n w h]; exact ih
 
 /-! ### the depth limit of `decodeInlineContentAt` -/
 
